@@ -310,11 +310,28 @@ def line_of(case):
 
 # ----------------------------------------------------------------------------- the real code
 
-def np_index(values):
+def np_index(values, dt=None):
     import numpy
     if any(v > INT32MAX for v in values):
         return numpy.array(values, dtype=numpy.uint64 if max(values) >= 2 ** 63 else numpy.int64)
-    return numpy.array(values, dtype=numpy.int32)
+    return numpy.array(values, dtype=dt or numpy.int32)
+
+
+def index_type(case):
+    """the constructors take any integer array: one signed or unsigned type, of a width that holds every value, for all index arrays of the case
+    (chosen by the values themselves, so a case replays the same way)"""
+    import numpy
+    allv = [v for p in case['polys'] for v in p] + list(case['vcounts'])
+    if any(v > INT32MAX for v in allv):
+        return None
+    top = max(allv) if allv else 0
+    fits = [numpy.int32, numpy.int64, numpy.uint32, numpy.uint64, numpy.int32] + ([numpy.uint16, numpy.int16] if top < 2 ** 15 else []) + ([numpy.uint8] if top < 2 ** 8 else [])
+    return fits[(sum(allv) + len(allv)) % len(fits)]
+
+
+def ref_text(r):
+    """'v': the <vertices> element; 'x': a text that is no reference (no '#'; its tail names nothing); k: source k (dangling when there is no such source)"""
+    return '#verts' if r == 'v' else 'nohash-s0' if r == 'x' else '#s%d' % r
 
 
 def build_api(case):
@@ -327,15 +344,16 @@ def build_api(case):
     geom = geometry.Geometry(mesh, 'g', 'g', srcs)
     il = source.InputList()
     for o, s, r, st in case['inputs']:
-        il.addInput(o, s, '#s%d' % r, None if st is None else str(st))
+        il.addInput(o, s, ref_text(r), None if st is None else str(st))
     kind = case['kind']
+    dt = index_type(case)
     if kind == 'triangles':
-        return geom.createTriangleSet(np_index(case['polys'][0]), il, 'm')
+        return geom.createTriangleSet(np_index(case['polys'][0], dt), il, 'm')
     if kind == 'lines':
-        return geom.createLineSet(np_index(case['polys'][0]), il, 'm')
+        return geom.createLineSet(np_index(case['polys'][0], dt), il, 'm')
     if kind == 'polylist':
-        return geom.createPolylist(np_index(case['polys'][0]), np_index(case['vcounts']), il, 'm')
-    return geom.createPolygons([np_index(p) for p in case['polys']], il, 'm')
+        return geom.createPolylist(np_index(case['polys'][0], dt), np_index(case['vcounts'], dt), il, 'm')
+    return geom.createPolygons([np_index(p, dt) for p in case['polys']], il, 'm')
 
 
 def xml_of(case, seps=(' ',)):
@@ -360,8 +378,8 @@ def xml_of(case, seps=(' ',)):
     nitems = len(case['vcounts']) if kind == 'polylist' else len(case['polys']) if kind == 'polygons' else 0
     parts.append('<%s count="%d" material="m">' % (kind, nitems))
     for o, s, r, st in case['inputs']:
-        parts.append('<input offset="%d" semantic="%s" source="#%s"%s/>'
-                     % (o, s, 'verts' if r == 'v' else 's%d' % r, '' if st is None else ' set="%d"' % st))
+        parts.append('<input offset="%d" semantic="%s" source="%s"%s/>'
+                     % (o, s, ref_text(r), '' if st is None else ' set="%d"' % st))
     if kind == 'polylist':
         parts.append('<vcount>%s</vcount>' % txt(case['vcounts']))
     for p in case['polys']:
